@@ -195,3 +195,6 @@ package os
 //@ requires ctx != nil
 //@ ensures[C12.defaultos] hasos(ctx) ==> any(result) == ctxos(ctx)
 //@ ensures[C12.defaultos.fallback] !hasos(ctx) ==> typeof(result) == *SimpleOS && fresh(result)
+
+// globalScriptargs: set once by the command line front end before any evaluation (SetScriptArgs).
+//@ scan[C09.globals.os] C09 pkgglobals github.com/risor-io/risor/os: globalScriptargs<-SetScriptArgs
